@@ -12,6 +12,26 @@ let run_file (file : string) : int * int =
        (match split_ws line with
         | "BEGIN" :: i :: _ -> id := i; incr scen; st.(0) <- Some sinit; st.(1) <- Some sinit
         | "END" :: _ -> ()
+        | "CLOSES" :: toks ->
+          (* handles of one session: H = handshake, C<k> = Close of the handle of connection k, T<j>=ok|fail =
+             a transfer on connection j worked; replayed through Reconnect.crun (per-connection handles) *)
+          let evs = ref [] in
+          List.iter (fun t ->
+              if t = "H" then evs := !evs @ [CHandshake]
+              else if String.length t > 1 && t.[0] = 'C' then
+                evs := !evs @ [CClose (nat_of_int (int_of_string (String.sub t 1 (String.length t - 1))))]
+              else if String.length t > 1 && t.[0] = 'T' then begin
+                match String.split_on_char '=' (String.sub t 1 (String.length t - 1)) with
+                | [j; r] ->
+                  let st = crun false [] !evs in
+                  let model_open = (try List.nth st (int_of_string j) with _ -> false) in
+                  incr scen;
+                  if model_open <> (r = "ok") then begin
+                    incr bad;
+                    if !bad <= 20 then Printf.printf "MISMATCH scenario=%s `%s` | model=connection %s is %s | impl=transfer %s\n" !id line j (if model_open then "open" else "closed") r
+                  end
+                | _ -> ()
+              end) toks
         | side :: _ :: rest when side = "S" || side = "C" ->
           let x = if side = "S" then 0 else 1 in
           let ev = match rest with
